@@ -180,3 +180,100 @@ pub fn c12_time_offset_shape6() {
         }
     }
 }
+
+// ---- composite date-time kernels of toml_edit on free ASCII bytes --------------------------------
+
+pub fn eq_date(a: toml_datetime::Date, r: RDate) -> bool {
+    a.year == r.year && a.month == r.month && a.day == r.day
+}
+pub fn eq_time(a: toml_datetime::Time, r: RTime) -> bool {
+    a.hour == r.hour && a.minute == r.minute && a.second == r.second && a.nanosecond == r.nanosecond
+}
+
+macro_rules! full_date_ascii {
+    ($harness:ident, $n:expr, $unwind:expr) => {
+        /// full-date on all ASCII strings <= $n bytes
+        #[kani::proof]
+        #[kani::unwind($unwind)]
+        #[kani::stub(core::str::from_utf8, stub_from_utf8)]
+        pub fn $harness() {
+            let (buf, len) = any_ascii::<$n>();
+            let s = &buf[..len];
+            match hooks::full_date(as_str(s)) {
+                Outcome::Ok(v, n) => {
+                    assert!(n == 10 && n <= len);
+                    match v_full_date(&s[..n]) {
+                        Some(r) => assert!(eq_date(v, r)),
+                        None => panic!("accepted an impossible date"),
+                    }
+                    kani::cover!(v.month == 2 && v.day == 29, "accepts a 29 February");
+                }
+                _ => {
+                    assert!(len < 10 || v_full_date(&s[..10]).is_none());
+                    kani::cover!(len >= 10 && s[4] == b'-' && s[7] == b'-', "rejects a well-shaped impossible date");
+                }
+            }
+        }
+    };
+}
+full_date_ascii!(c12_full_date_a11, 11, 13);
+
+macro_rules! partial_time_ascii {
+    ($harness:ident, $n:expr, $unwind:expr) => {
+        /// partial-time on all ASCII strings <= $n bytes
+        #[kani::proof]
+        #[kani::unwind($unwind)]
+        #[kani::stub(core::str::from_utf8, stub_from_utf8)]
+        pub fn $harness() {
+            let (buf, len) = any_ascii::<$n>();
+            let s = &buf[..len];
+            match hooks::partial_time(as_str(s)) {
+                Outcome::Ok(v, n) => {
+                    assert!(n >= 8 && n <= len);
+                    match v_partial_time(&s[..n]) {
+                        Some(r) => assert!(eq_time(v, r)),
+                        None => panic!("accepted an impossible time"),
+                    }
+                    kani::cover!(n > 9, "accepts a fraction");
+                }
+                _ => {
+                    assert!(v_partial_time(s).is_none());
+                    kani::cover!(len >= 8 && s[2] == b':' && s[5] == b':', "rejects a well-shaped impossible time");
+                }
+            }
+        }
+    };
+}
+partial_time_ascii!(c12_partial_time_a10, 10, 12);
+
+macro_rules! date_time_ascii {
+    ($harness:ident, $n:expr, $unwind:expr) => {
+        /// the assembled date-time rule on all ASCII strings <= $n bytes
+        #[kani::proof]
+        #[kani::unwind($unwind)]
+        #[kani::stub(core::str::from_utf8, stub_from_utf8)]
+        pub fn $harness() {
+            let (buf, len) = any_ascii::<$n>();
+            let s = &buf[..len];
+            match hooks::date_time(as_str(s)) {
+                Outcome::Ok(v, n) => {
+                    assert!(n <= len);
+                    match v_date_time(&s[..n]) {
+                        Some(r) => assert!(crate::h_datetime_fromstr::eq_datetime(&v, &r)),
+                        None => panic!("accepted a non-date-time"),
+                    }
+                    kani::cover!(v.date.is_some() && n == len, "accepts a date form");
+                    kani::cover!(v.date.is_none(), "accepts a local time");
+                }
+                _ => {
+                    assert!(v_date_time(s).is_none());
+                    kani::cover!(len == $n, "rejects");
+                }
+            }
+        }
+    };
+}
+date_time_ascii!(c12_date_time_a10, 10, 12);
+
+// (the assembled rule on the 25-byte offset-date-time shape -- 18 symbolic digits, 3 free bytes --
+// aborts at > 24 GB after ~1300 s; the assembly of date + time + offset is outside the claim)
